@@ -11,10 +11,11 @@ REPO = os.environ.get("VERIF_REPO", "/repo")
 sys.path.insert(0, REPO)
 
 
-def build(n, deps, prio, debug=None):
+def build(n, deps, prio, debug=None, tags=None):
     from tawazi import dag, xn
 
     debug = debug or [False] * n
+    tags = tags or {}
 
     xs = {}
     for k in range(1, n + 1):
@@ -23,7 +24,7 @@ def build(n, deps, prio, debug=None):
                 return k
             f.__qualname__ = f.__name__ = f"f{k}"
             return f
-        xs[k] = xn(mk(), priority=prio[k - 1], debug=debug[k - 1])
+        xs[k] = xn(mk(), priority=prio[k - 1], debug=debug[k - 1], tag=tags.get(k))
     lines = [f"    v{k} = X[{k}]({', '.join(f'v{d}' for d in deps[k - 1])})" for k in range(1, n + 1)]
     src = "def describe():\n" + "\n".join(lines) + "\n    return (" + ", ".join(f"v{k}" for k in range(1, n + 1)) + ",)\n"
     env = {"X": xs}
@@ -46,7 +47,12 @@ def observe(case, idx):
     n, deps = case["n"], case["deps"]
     from tawazi import cfg as twz_cfg
 
-    d = build(n, deps, case["prio"], case.get("debug"))
+    named = case.get("conf") or list(range(1, n + 1))
+    how = idx % 5
+    # how == 1: the reconfiguration addresses the nodes through tags - all the nodes that get the same new priority carry
+    # one tag and share one entry of the configuration
+    tags = {k: f"q{case['prio2'][k - 1]}" for k in named} if how == 1 else {}
+    d = build(n, deps, case["prio"], case.get("debug"), tags)
     # debug nodes take part (in calls and, pulled below the selected leaves, in executors)
     twz_cfg.RUN_DEBUG_NODES = bool(case.get("debug") and any(case["debug"]))
     row = dict(case)
@@ -72,9 +78,9 @@ def observe(case, idx):
             m |= 1 << (k - 1)
         subs.append([m] + [ex.graph.compound_priority[f"f{k}"] if k in g else 0 for k in range(1, n + 1)])
     row["subs"] = subs
-    named = case.get("conf") or list(range(1, n + 1))
     conf = {"nodes": {f"f{k}": {"priority": case["prio2"][k - 1]} for k in named}}
-    how = idx % 5
+    if how == 1:
+        conf = {"nodes": {t: {"priority": int(t[1:])} for t in sorted(set(tags.values()))}}
     if how == 3:
         with tempfile.NamedTemporaryFile("w", suffix=".json", delete=False) as f:
             json.dump(conf, f)
@@ -88,6 +94,8 @@ def observe(case, idx):
         os.remove(f.name)
     else:
         d.config_from_dict(conf)
+        if how == 1:
+            d.config_from_dict(conf)        # the same configuration object once more: nothing changes
     row["cp_reconf"] = [d.graph_ids.compound_priority[f"f{k}"] for k in range(1, n + 1)]
     # a second configuration that does not touch priorities must leave the table alone
     d.config_from_dict({"nodes": {f"f{1 + idx % n}": {"is_sequential": False}}})
